@@ -3,16 +3,18 @@
 
     ss <id> <cats> <nsyms> { <opcode> <cat> <parametric> <weight> <arity> <argcat>* }
     IND := <rows> <cols> <best_i> <best_c> <age> <xover> { <opcode> <par> <nargs> <arg>* }^(rows*cols)
-    random    <ss> <pl> IND
-    mutation  <ss> <pl> <zero?> IND(pre) IND(post) <n>
+    random    <ss> <pl> IND                                   (env.code_length = rows of IND)
+    mutation  <ss> <env code_length> <env patch_length> <zero?> IND(pre) IND(post) <n>
+              the environment is the one of the problem handed to `mutation`; it need not fit the
+              operand (the relation `MutStep` reads its patch length only)
     crossover <ss> IND(lhs) IND(rhs) IND(post)
     getblock  <ss> <i> <c> IND(pre) IND(post)
     replace   <ss> <i> <c> IND(pre) IND(post)
     destroy   <ss> <idx> IND(pre) IND(post)
     cse       <ss> IND(pre) IND(post)
     incage    <ss> IND(pre) IND(post)
-    trandom   <ss> <pl> <k> IND^k
-    tmutation <ss> <pl> <zero?> <k> IND^k(pre) IND^k(post) <n>
+    trandom   <ss> <pl> <k> IND^k                             (env.team.individuals = k)
+    tmutation <ss> <env code_length> <env patch_length> <zero?> <k> IND^k(pre) IND^k(post) <n>
     tcrossover <ss> <k> IND^k(lhs) IND^k(rhs) IND^k(post)
     tincage   <ss> <k> IND^k(pre) IND^k(post)
     tmembers  <ss> <k> IND^k(given) IND^k(post)          team(std::vector<i_mep>)
@@ -130,15 +132,17 @@ def runOp (tbl : List (Nat × SymSet)) (op : String) : PM String := do
   | "random" =>
     let pl ← nextNat
     let post ← parseInd ss
-    finish (chkWF "wf-post" ss post (chk "step" (decide (RandomStep ss post.rows pl post)) []))
+    finish (chkWF "wf-post" ss post (chk "step" (decide (RandomStep ss ⟨post.rows, pl, 1⟩ post)) []))
   | "mutation" =>
+    let cl ← nextNat
     let pl ← nextNat
+    let env : MepEnv := ⟨cl, pl, 1⟩
     let isZero ← nextNat
     let pre ← parseInd ss
     let post ← parseInd ss
     let n ← nextNat
     let f := chkWF "wf-pre" ss pre []
-    let f := chk "step" (mutStepStrongB ss pl pre post n) f
+    let f := chk "step" (mutStepStrongB ss env pre post n) f
     let f := if isZero != 0 then chk "zero-id" (decide (SameGenes pre post) && n == 0) f else f
     finish (chkWF "wf-post" ss post f)
   | "crossover" =>
@@ -194,21 +198,23 @@ def runOp (tbl : List (Nat × SymSet)) (op : String) : PM String := do
     let k ← nextNat
     let post ← repN k (parseInd ss)
     let rows := (post.getD 0 teamMutation.default_ind).rows
-    let f := chk "step" (decide (TeamRandomStep ss rows pl post.toList)) []
+    let f := chk "step" (decide (TeamRandomStep ss ⟨rows, pl, k⟩ post.toList)) []
     finish (post.foldl (fun f x => chkWF "wf-post" ss x f) f)
   | "tmutation" =>
+    let cl ← nextNat
     let pl ← nextNat
+    let env : MepEnv := ⟨cl, pl, 1⟩
     let isZero ← nextNat
     let k ← nextNat
     let pre ← repN k (parseInd ss)
     let post ← repN k (parseInd ss)
     let n ← nextNat
     let f := pre.foldl (fun f x => chkWF "wf-pre" ss x f) []
-    let f := chk "step" (decide (TeamMutStep ss pl pre.toList post.toList)) f
+    let f := chk "step" (decide (TeamMutStep ss env pre.toList post.toList)) f
     let f := chk "exons-only" ((List.range k).all (fun j =>
       let a := pre.getD j teamMutation.default_ind
       let b := post.getD j teamMutation.default_ind
-      mutStepStrongB ss pl a b (changedLoci a b).length)) f
+      mutStepStrongB ss env a b (changedLoci a b).length)) f
     let f := chk "count" (sumChanged pre post == n) f
     let f := if isZero != 0 then chk "zero-id" (n == 0 && sumChanged pre post == 0) f else f
     finish (post.foldl (fun f x => chkWF "wf-post" ss x f) f)
